@@ -6,8 +6,10 @@ import (
 	"encoding/binary"
 	"fmt"
 	"io"
+	"os"
 	"strings"
 	"sync"
+	"sync/atomic"
 	"time"
 
 	"cedarverif/harness/internal/bufpipe"
@@ -30,6 +32,7 @@ func relayStreamCase(c *Ctx, idx int) Case {
 	w := newWorld()
 	n := 1 + c.Rng.Intn(4)
 	changed := false
+	sentAll, seenAll := map[string][]byte{}, map[string][]byte{}
 	for i := 0; i < n; i++ {
 		from := "A"
 		if c.Rng.Intn(2) == 0 {
@@ -38,7 +41,11 @@ func relayStreamCase(c *Ctx, idx int) Case {
 		to := w.peer(from).name
 		d := randBytes(c, c.Rng.Intn(24))
 		_ = w.send(from, 1, d)
-		ed := clearEdit{kind: pick(c, []string{"none", "none", "flip", "hdrflag", "insert", "drop", "split", "append"})}
+		ed := clearEdit{kind: pick(c, []string{"none", "none", "flip", "hdrflag", "insert", "drop", "split", "append", "merge"})}
+		if ed.kind == "merge" {
+			// a second message from the same side, so that two adjacent frames are in flight
+			_ = w.send(from, 1, randBytes(c, c.Rng.Intn(24)))
+		}
 		honest := append([]byte{}, w.pending[to]...)
 		frames, _ := refcodec.ParseFrames(honest)
 		var out []refcodec.Frame
@@ -74,6 +81,15 @@ func relayStreamCase(c *Ctx, idx int) Case {
 			} else {
 				out = frames
 			}
+		case "merge":
+			// both frames re-framed as one: same payload bytes, different framing
+			if len(frames) >= 2 {
+				a, b := frames[0], frames[1]
+				body := append(append([]byte{}, a.Body...), b.Body...)
+				out = []refcodec.Frame{{Flag: b.Flag, Len: uint32(len(body)), Body: body}}
+			} else {
+				out = frames
+			}
 		case "append":
 			f := frames[0]
 			f.Body = append(append([]byte{}, f.Body...), 0x41)
@@ -88,9 +104,11 @@ func relayStreamCase(c *Ctx, idx int) Case {
 			ob = append(ob, f.Bytes()...)
 			specs = append(specs, fmt.Sprintf("r%d:%s", f.Flag, payloadHex(f.Body)))
 		}
-		if !bytes.Equal(ob, honest) {
-			changed = true
-		}
+		// what counts is the whole transcript of the direction (an empty frame inserted by one edit and
+		// an empty message swallowed by a later one leave the receiver with exactly what was sent)
+		sentAll[to] = append(sentAll[to], honest...)
+		seenAll[to] = append(seenAll[to], ob...)
+		changed = !bytes.Equal(sentAll["A"], seenAll["A"]) || !bytes.Equal(sentAll["B"], seenAll["B"])
 		w.pending[to] = nil
 		w.ep(to).c.Feed(ob)
 		w.log(strings.TrimRight("wire "+to+" "+strings.Join(specs, " "), " "), "ok")
@@ -146,7 +164,7 @@ func payloadHex(b []byte) string {
 type relayEdit struct {
 	dir   int    // 0 = client->server, 1 = server->client
 	frame int    // frame index in that direction
-	kind  string // xor insert drop split
+	kind  string // xor insert drop split merge
 	off   int    // byte offset inside the serialized frame (header included)
 	val   byte
 }
@@ -154,30 +172,42 @@ type relayEdit struct {
 type relayStats struct {
 	mu     sync.Mutex
 	frames [2][]int // serialized sizes of frames forwarded so far
+	order  []int    // direction of every frame in the order the relay took them
+}
+
+func readFrame(src *bufpipe.Conn) (hdr, body []byte, ok bool) {
+	hdr = make([]byte, 5)
+	if _, err := io.ReadFull(src, hdr); err != nil {
+		return nil, nil, false
+	}
+	n := binary.BigEndian.Uint32(hdr[1:5])
+	if n > 2<<20 {
+		return nil, nil, false
+	}
+	body = make([]byte, n)
+	if _, err := io.ReadFull(src, body); err != nil {
+		return nil, nil, false
+	}
+	return hdr, body, true
 }
 
 func pump(src, dst *bufpipe.Conn, dir int, ed *relayEdit, st *relayStats, stop *bool) {
 	idx := 0
-	for {
-		hdr := make([]byte, 5)
-		if _, err := io.ReadFull(src, hdr); err != nil {
-			dst.Close()
-			return
-		}
-		n := binary.BigEndian.Uint32(hdr[1:5])
-		if n > 2<<20 {
-			dst.Close()
-			return
-		}
-		body := make([]byte, n)
-		if _, err := io.ReadFull(src, body); err != nil {
-			dst.Close()
-			return
-		}
-		raw := append(hdr, body...)
+	note := func(n int) {
 		st.mu.Lock()
-		st.frames[dir] = append(st.frames[dir], len(raw))
+		st.frames[dir] = append(st.frames[dir], n)
+		st.order = append(st.order, dir)
 		st.mu.Unlock()
+	}
+	for {
+		hdr, body, ok := readFrame(src)
+		if !ok {
+			dst.Close()
+			return
+		}
+		n := uint32(len(body))
+		raw := append(hdr, body...)
+		note(len(raw))
 		out := raw
 		if ed != nil && ed.dir == dir && ed.frame == idx {
 			switch ed.kind {
@@ -197,6 +227,19 @@ func pump(src, dst *bufpipe.Conn, dir int, ed *relayEdit, st *relayStats, stop *
 					b := refcodec.Frame{Flag: hdr[0], Len: n - uint32(k), Body: body[k:]}
 					out = append(a.Bytes(), b.Bytes()...)
 				}
+			case "merge":
+				// this frame and the next one of the same direction re-framed as ONE frame carrying
+				// both payloads (end flag of the second): the payload byte stream is unchanged, only
+				// the framing -- which the transcript digest covers -- differs
+				hdr2, body2, ok2 := readFrame(src)
+				if !ok2 {
+					dst.Close()
+					return
+				}
+				note(5 + len(body2))
+				idx++
+				m := refcodec.Frame{Flag: hdr2[0], Len: n + uint32(len(body2)), Body: append(append([]byte{}, body...), body2...)}
+				out = m.Bytes()
 			}
 		}
 		idx++
@@ -208,24 +251,44 @@ func pump(src, dst *bufpipe.Conn, dir int, ed *relayEdit, st *relayStats, stop *
 	}
 }
 
-var relayPanics int // panics inside the library while a tampered handshake ran (a C13 matter; counted in the notes)
+var relayPanics atomic.Int64 // panics inside the library while a tampered handshake ran (a C13 matter; counted in the notes)
 
 type relayShape struct {
 	name    string
-	cauth   security.SecurityLevel
 	resumed bool
+	method  string // the method that must complete in the unmodified run ("" = none)
+	cli     func(cache *security.SessionCache) *security.SecurityConfig
+	srv     func() *security.SecurityConfig
 }
 
-// relayRun performs one handshake (fresh or resumed) through the relay; returns whether both
+// an unmodified run is bounded generously (the bound only ends a run that already failed); an edited
+// run that stalls (a dropped frame leaves both ends reading) is cut short -- a run cut short counts
+// as a failed handshake, which is the safe direction for the oracle
+const relayEditTimeout = 600 * time.Millisecond
+
+type relayOut struct {
+	hsOK, appOK   bool
+	resumed       bool // the client reports that it resumed a cached session
+	cMethod, sMethod string
+	st            *relayStats
+}
+
+// relayRun performs one handshake (fresh or resumed) through the relay; reports whether both
 // handshakes succeeded and whether application messages were then delivered both ways.
-func relayRun(sh relayShape, cache *security.SessionCache, ed *relayEdit) (hsOK bool, appOK bool, st *relayStats) {
-	c1, r1 := bufpipe.Pair("10.0.0.1:1111", "10.0.0.9:1")
-	r2, s1 := bufpipe.Pair("10.0.0.9:2", "10.0.0.2:9618")
-	st = &relayStats{}
+func relayRun(sh relayShape, cache *security.SessionCache, ed *relayEdit) (o relayOut) {
+	// the client's view of the server address is the server's real one (FS names the endpoint)
+	c1, r1 := bufpipe.Pair("10.0.0.1:1111", "10.0.0.2:9618")
+	r2, s1 := bufpipe.Pair("10.0.0.1:1111", "10.0.0.2:9618")
+	st := &relayStats{}
+	o.st = st
 	stop := false
 	go pump(r1, r2, 0, ed, st, &stop)
 	go pump(r2, r1, 1, ed, st, &stop)
-	ctx, cancel := context.WithTimeout(context.Background(), 500*time.Millisecond)
+	bound := hsHonestTimeout
+	if ed != nil {
+		bound = relayEditTimeout
+	}
+	ctx, cancel := context.WithTimeout(context.Background(), bound)
 	defer cancel()
 	cst, sst := stream.NewStream(c1), stream.NewStream(s1)
 	sst.SetPeerAddr("10.0.0.1:1111")
@@ -235,13 +298,11 @@ func relayRun(sh relayShape, cache *security.SessionCache, ed *relayEdit) (hsOK 
 	wg.Add(1)
 	go func() {
 		defer wg.Done()
-		sc := *srvConf(true)
-		sc.Authentication = security.SecurityOptional
-		a := security.NewAuthenticator(&sc, sst)
+		a := security.NewAuthenticator(sh.srv(), sst)
 		defer func() {
 			if r := recover(); r != nil {
 				serr = fmt.Errorf("PANIC in ServerHandshake: %v", r)
-				relayPanics++
+				relayPanics.Add(1)
 				s1.Close()
 			}
 		}()
@@ -250,33 +311,38 @@ func relayRun(sh relayShape, cache *security.SessionCache, ed *relayEdit) (hsOK 
 			s1.Close()
 		}
 	}()
-	cc := *cliConf(cache, "")
-	cc.Authentication = sh.cauth
-	a := security.NewAuthenticator(&cc, cst)
+	a := security.NewAuthenticator(sh.cli(cache), cst)
 	var cerr error
+	var cneg *security.SecurityNegotiation
 	func() {
 		defer func() {
 			if r := recover(); r != nil {
 				cerr = fmt.Errorf("PANIC in ClientHandshake: %v", r)
-				relayPanics++
+				relayPanics.Add(1)
 			}
 		}()
-		_, cerr = a.ClientHandshake(ctx)
+		cneg, cerr = a.ClientHandshake(ctx)
 	}()
 	if cerr != nil {
 		c1.Close()
 	}
 	wg.Wait()
-	_ = sneg
-	hsOK = cerr == nil && serr == nil
-	if hsOK {
+	o.hsOK = cerr == nil && serr == nil
+	if o.hsOK {
+		o.resumed = a.WasSessionResumed()
+		if cneg != nil && cneg.Authentication {
+			o.cMethod = string(cneg.NegotiatedAuth)
+		}
+		if sneg != nil && sneg.Authentication {
+			o.sMethod = string(sneg.NegotiatedAuth)
+		}
 		e1 := cst.SendMessage(ctx, []byte("c2s-app"))
 		m1, e2 := sst.ReceiveCompleteMessage(ctx)
 		ok1 := e1 == nil && e2 == nil && string(m1) == "c2s-app"
 		e3 := sst.SendMessage(ctx, []byte("s2c-app"))
 		m2, e4 := cst.ReceiveCompleteMessage(ctx)
 		ok2 := e3 == nil && e4 == nil && string(m2) == "s2c-app"
-		appOK = ok1 || ok2
+		o.appOK = ok1 || ok2
 	}
 	c1.Close()
 	s1.Close()
@@ -285,8 +351,50 @@ func relayRun(sh relayShape, cache *security.SessionCache, ed *relayEdit) (hsOK 
 	return
 }
 
+func relayShapes(m *stallMaterial) []relayShape {
+	claimSrv := func() *security.SecurityConfig {
+		sc := *srvConf(true)
+		sc.Authentication = security.SecurityOptional
+		return &sc
+	}
+	claimCli := func(level security.SecurityLevel) func(cache *security.SessionCache) *security.SecurityConfig {
+		return func(cache *security.SessionCache) *security.SecurityConfig {
+			cc := *cliConf(cache, "")
+			cc.Authentication = level
+			return &cc
+		}
+	}
+	aes := []string{"AES"}
+	return []relayShape{
+		{name: "noauth", cli: claimCli(security.SecurityNever), srv: claimSrv},
+		{name: "claimtobe", method: "CLAIMTOBE", cli: claimCli(security.SecurityPreferred), srv: claimSrv},
+		{name: "resumed", resumed: true, cli: claimCli(security.SecurityPreferred), srv: claimSrv},
+		{name: "token", method: "TOKEN", cli: func(cache *security.SessionCache) *security.SecurityConfig {
+			cc := stallConf([]string{"TOKEN"}, "REQUIRED", "OPTIONAL", aes)
+			cc.SessionCache, cc.PeerName = cache, "srvA"
+			cc.TokenFile, cc.TrustDomain, cc.IssuerKeys = m.tokenFile, "example.com", []string{"POOL"}
+			return cc
+		}, srv: func() *security.SecurityConfig {
+			sc := stallConf([]string{"TOKEN"}, "REQUIRED", "OPTIONAL", aes)
+			sc.SessionCache = nil
+			sc.TrustDomain, sc.TokenPoolSigningKeyFile, sc.TokenSigningKeyDir = "example.com", m.poolKeyFile, m.keyDir
+			return sc
+		}},
+		{name: "fs", method: "FS", cli: func(cache *security.SessionCache) *security.SecurityConfig {
+			cc := stallConf([]string{"FS"}, "REQUIRED", "OPTIONAL", aes)
+			cc.SessionCache, cc.PeerName = cache, "srvA"
+			return cc
+		}, srv: func() *security.SecurityConfig {
+			sc := stallConf([]string{"FS"}, "REQUIRED", "OPTIONAL", aes)
+			sc.SessionCache = nil
+			return sc
+		}},
+	}
+}
+
 func runRelay(c *Ctx) error {
-	c.Res.Rule = "part 1 (stream level, compared with the model): 1-4 cleartext frames in either direction each edited in transit (payload bit flip, end flag flipped or rewritten to another accepted value 2..10, empty frame inserted before/after, frame dropped, split in two, byte appended), then keys installed and one protected message each way; part 2 (whole handshakes through a byte-editing relay, property oracle): shapes {no authentication, CLAIMTOBE, resumed session} x every frame of the handshake in each direction x (every byte offset x xor 0x01/0x80 in thorough, every 2nd-5th offset in quick; the end-flag byte also rewritten to 2, 3 and 10) plus empty-frame insertion, frame removal and frame splitting; distinct by (shape, edit); non-trivial = the edit lands in a frame exchanged before the application data"
+	c.Res.Rule = "part 1 (stream level, compared with the model): 1-4 cleartext frames in either direction each edited in transit (payload bit flip, end flag flipped or rewritten to another accepted value 2..10, empty frame inserted before/after, frame dropped, split in two, two adjacent frames merged into one, byte appended), then keys installed and one protected message each way; part 2 (whole handshakes through a byte-editing relay, property oracle): shapes {no authentication, CLAIMTOBE, TOKEN, FS, resumed session (checked to have resumed)} x every frame of the handshake in each direction x (every byte offset x xor 0x01/0x80 in thorough, every 3rd-6th offset in quick; the end-flag byte also rewritten to 2, 3 and 10) plus empty-frame insertion, frame removal, frame splitting and merging of every pair of adjacent cleartext frames of a direction; edits that could not be run are counted and bounded; distinct by (shape, edit); non-trivial = the edit lands in a frame exchanged before the application data"
+	defer quietStdout()()
 	var cases []Case
 	n := c.Pick(600, 8000)
 	for i := 0; i < n; i++ {
@@ -296,31 +404,75 @@ func runRelay(c *Ctx) error {
 		return err
 	}
 	// part 2
-	shapes := []relayShape{{"noauth", security.SecurityNever, false}, {"claimtobe", security.SecurityPreferred, false}, {"resumed", security.SecurityPreferred, true}}
+	work, err := os.MkdirTemp(fsWorkDir(c), "relay-")
+	if err != nil {
+		return err
+	}
+	defer os.RemoveAll(work)
+	mat, err := stallPrepare(work)
+	if err != nil {
+		return err
+	}
+	fsBefore := stallFSDirs()
+	defer func() {
+		for d := range stallFSDirs() {
+			if !fsBefore[d] {
+				_ = os.Remove(d)
+			}
+		}
+	}()
+	obligation := func(label, what string) {
+		// a precondition of the engine's own coverage claim failed: reported as a broken
+		// correspondence obligation (no failing input of the property)
+		c.Res.Mismatches = append(c.Res.Mismatches, Mismatch{Label: "relay: " + label, Ops: []string{what}, Real: []string{"precondition failed"}, Model: []string{"precondition holds"}})
+	}
+	shapes := relayShapes(mat)
+	planned, skipped := 0, 0
 	for _, sh := range shapes {
+		sh := sh
 		security.ClearSessionCache()
 		cache := security.NewSessionCache()
 		prep := func() bool {
 			security.ClearSessionCache()
 			cache = security.NewSessionCache()
 			if sh.resumed {
-				ok, _, _ := relayRun(relayShape{"claimtobe", security.SecurityPreferred, false}, cache, nil)
-				return ok
+				// establish the session to resume: an unmodified full handshake (retried once: the
+				// bound is generous, a failure here is not an observation of the property)
+				full := sh
+				full.resumed = false
+				for try := 0; try < 2; try++ {
+					if o := relayRun(full, cache, nil); o.hsOK {
+						return true
+					}
+				}
+				return false
 			}
 			return true
 		}
 		if !prep() {
-			c.Res.Notes = append(c.Res.Notes, "relay: could not establish the session to resume")
+			obligation(sh.name, "could not establish the session to resume")
 			continue
 		}
-		hsOK, appOK, st := relayRun(sh, cache, nil)
-		if !hsOK || !appOK {
-			c.Violate(Violation{Property: "C04", Key: "C04:honest-relay-failed:" + sh.name, What: "an unmodified handshake through the relay failed", Ops: []string{"shape " + sh.name}, Expected: "success", Observed: fmt.Sprintf("hs=%v app=%v", hsOK, appOK)})
+		o := relayRun(sh, cache, nil)
+		if !o.hsOK || !o.appOK {
+			c.Violate(Violation{Property: "C04", Key: "C04:honest-relay-failed:" + sh.name, What: "an unmodified handshake through the relay failed", Ops: []string{"shape " + sh.name}, Expected: "success", Observed: fmt.Sprintf("hs=%v app=%v", o.hsOK, o.appOK)})
 			continue
 		}
+		if sh.resumed && !o.resumed {
+			obligation(sh.name, "the shape meant to exercise a RESUMED handshake performed a full one")
+			continue
+		}
+		if !sh.resumed && (o.resumed || o.cMethod != sh.method || o.sMethod != sh.method) {
+			obligation(sh.name, fmt.Sprintf("the shape did not run the handshake it is named after: resumed=%v client method=%q server method=%q want %q", o.resumed, o.cMethod, o.sMethod, sh.method))
+			continue
+		}
+		st := o.st
 		// frames seen during the honest run, minus the two application frames per direction's tail
 		var edits []relayEdit
 		step := c.Pick(3, 1)
+		if !c.Thorough() && (sh.name == "token" || sh.name == "fs") {
+			step = 5
+		}
 		for dir := 0; dir < 2; dir++ {
 			nf := len(st.frames[dir]) - 1 // the last frame in each direction is the application message
 			for f := 0; f < nf; f++ {
@@ -339,16 +491,58 @@ func runRelay(c *Ctx) error {
 				edits = append(edits, relayEdit{dir: dir, frame: f, kind: "insert"}, relayEdit{dir: dir, frame: f, kind: "drop"}, relayEdit{dir: dir, frame: f, kind: "split"})
 			}
 		}
-		for _, ed := range edits {
-			if !prep() {
+		// merge: every pair of frames the relay took one right after the other in the same
+		// direction (no frame of the other direction in between), application frames excluded
+		seen := [2]int{}
+		for i, d := range st.order {
+			f := seen[d]
+			seen[d]++
+			if i+1 < len(st.order) && st.order[i+1] == d && f+1 < len(st.frames[d])-1 {
+				edits = append(edits, relayEdit{dir: d, frame: f, kind: "merge"})
+				c.Count("shape:" + sh.name + ":adjacent-pair")
+			}
+		}
+		// run the edits: fresh handshakes are independent of each other (own cache, own pipes) and run
+		// eight at a time; resumed ones share the process-wide cache and run one by one
+		type editRes struct{ ran, hs, app bool }
+		results := make([]editRes, len(edits))
+		if sh.resumed {
+			for i := range edits {
+				if !prep() {
+					continue
+				}
+				e := edits[i]
+				ro := relayRun(sh, cache, &e)
+				results[i] = editRes{true, ro.hsOK, ro.appOK}
+			}
+		} else {
+			sem := make(chan struct{}, 8)
+			var wg sync.WaitGroup
+			for i := range edits {
+				wg.Add(1)
+				sem <- struct{}{}
+				go func(i int) {
+					defer wg.Done()
+					defer func() { <-sem }()
+					e := edits[i]
+					ro := relayRun(sh, security.NewSessionCache(), &e)
+					results[i] = editRes{true, ro.hsOK, ro.appOK}
+				}(i)
+			}
+			wg.Wait()
+		}
+		for i, ed := range edits {
+			planned++
+			if !results[i].ran {
+				skipped++
+				c.Count("edit-skipped:" + sh.name)
 				continue
 			}
-			e := ed
-			hs, app, _ := relayRun(sh, cache, &e)
+			hs, app := results[i].hs, results[i].app
 			c.Distinct(fmt.Sprintf("%s|%+v", sh.name, ed), true)
 			c.Count("shape:" + sh.name + ":" + ed.kind)
 			if hs && app {
-				c.Violate(Violation{Property: "C04", Key: fmt.Sprintf("C04:handshake:%s:%s:dir%d", sh.name, ed.kind, ed.dir), What: "a byte of the handshake transcript was modified / a frame inserted, removed or split in transit, yet application data was accepted afterwards",
+				c.Violate(Violation{Property: "C04", Key: fmt.Sprintf("C04:handshake:%s:%s:dir%d", sh.name, ed.kind, ed.dir), What: "a byte of the handshake transcript was modified / a frame inserted, removed, split or merged in transit, yet application data was accepted afterwards",
 					Ops: []string{"shape " + sh.name, fmt.Sprintf("edit %+v", ed)}, Expected: "handshake fails or the first protected frame is rejected", Observed: "application message delivered"})
 			}
 			if len(c.Res.Samples) < 5 && c.Rng.Intn(300) == 0 {
@@ -356,9 +550,14 @@ func runRelay(c *Ctx) error {
 			}
 		}
 	}
-	if relayPanics > 0 {
-		c.Res.Notes = append(c.Res.Notes, fmt.Sprintf("%d tampered handshakes made the library panic (reported under C13, not C04)", relayPanics))
-		c.Res.Distribution["library-panics"] = relayPanics
+	c.Res.Distribution["edits-planned"] = planned
+	c.Res.Distribution["edits-skipped"] = skipped
+	if skipped*50 > planned {
+		obligation("skipped", fmt.Sprintf("%d of %d planned edits could not be run (the session to resume could not be established)", skipped, planned))
+	}
+	if n := int(relayPanics.Load()); n > 0 {
+		c.Res.Notes = append(c.Res.Notes, fmt.Sprintf("%d tampered handshakes made the library panic (reported under C13, not C04)", n))
+		c.Res.Distribution["library-panics"] = n
 	}
 	security.ClearSessionCache()
 	return nil
